@@ -196,10 +196,18 @@ def gen_cases(tier, seed):
         cs.append(build(r, "p%d" % i, tier, kinds[i % len(kinds)]))
     for j in range(2 if tier == "quick" else 12):
         cs += all_splits(r, "sp%d" % j)
+    # "when it ends it has seen all of it" end to end: a slow TCP target behind the server handler, the session ends
+    # while the upload is still queued (real time; no model side)
+    for i in range(1 if tier == "quick" else 4):
+        cs.append(Case("slow%d" % i, "lo", [("socks", "http")[i % 2], "slow_target", (8 << 20) + r.randint(0, 9999), 200, 4000],
+                       "loopback-slow-target", True, model=False))
     return cs
 
 
 def oracle(c, ir):
+    if c.drv == "lo":
+        from . import c08
+        return c08.lo_oracle(c, ir)
     if c.drv != "ss":
         return "unknown driver"
     return G.ss_oracle(c, ir)
